@@ -326,6 +326,127 @@ def serde_sites():
     return schema
 
 
+SERDE_INT = {"u8": (0, 2**8-1, False), "u16": (0, 2**16-1, False), "u32": (0, 2**32-1, False), "u64": (0, 2**64-1, False),
+       "i8": (-2**7, 2**7-1, False), "i16": (-2**15, 2**15-1, False), "i32": (-2**31, 2**31-1, False), "i64": (-2**63, 2**63-1, False),
+       "nzu16": (1, 2**16-1, True), "nzu32": (1, 2**32-1, True), "nzu64": (1, 2**64-1, True), "nzi32": (-2**31, 2**31-1, True)}
+
+
+def coq_str(s):
+    return "(str [" + "; ".join(str(b) for b in s.encode("utf-8")) + "]%N)"
+
+
+def coq_z(z):
+    return "(%d)" % z if z < 0 else str(z)
+
+
+def render_serde_schema_v(schema):
+    """Generated/SerdeSchema.v: one closed `ty` per derive site (named types are references to earlier definitions)"""
+    def deps(t, acc):
+        if isinstance(t, str):
+            return
+        if isinstance(t, list):
+            for x in t:
+                deps(x, acc)
+            return
+        for k, v in t.items():
+            if k == "named":
+                acc.add(v)
+            elif k in ("struct",):
+                for _, ft in v:
+                    deps(ft, acc)
+            elif k == "enum":
+                for _, p in v:
+                    if p != "unit":
+                        deps(p, acc)
+            else:
+                deps(v, acc)
+
+    def ty(t):
+        if isinstance(t, str):
+            if t in SERDE_INT:
+                lo, hi, nz = SERDE_INT[t]
+                return "(TInt %s %s %s)" % (coq_z(lo), coq_z(hi), "true" if nz else "false")
+            if t == "bool":
+                return "TBool"
+            if t == "str":
+                return "TStr"
+            raise ValueError("serde schema: no model for primitive " + t)
+        if "named" in t:
+            if t["named"] not in schema:
+                raise ValueError("serde schema: type %s has no derive site" % t["named"])
+            return "t_" + t["named"]
+        if "option" in t:
+            return "(TOption %s)" % ty(t["option"])
+        if "seq" in t:
+            return "(TSeq %s)" % ty(t["seq"])
+        if "map" in t:
+            return "(TMap %s %s)" % (ty(t["map"][0]), ty(t["map"][1]))
+        if "tuple" in t:
+            return tys(t["tuple"])
+        if "struct" in t:
+            return fields(t["struct"])
+        if "newtype" in t:
+            return ty(t["newtype"])
+        raise ValueError("serde schema: no model for %r" % (t,))
+
+    def tys(ts):
+        out = "TNil"
+        for x in reversed(ts):
+            out = "(TCons %s %s)" % (ty(x), out)
+        return "(TTuple %s)" % out
+
+    def fields(fs):
+        out = "FNil"
+        for name, ft in reversed(fs):
+            out = "(FCons %s %s\n    %s)" % (coq_str(name), ty(ft), out)
+        return "(TStruct %s)" % out
+
+    def definition(d):
+        if "newtype" in d:
+            return ty(d["newtype"])
+        if "tuple_struct" in d:
+            return tys(d["tuple_struct"])
+        if "struct" in d:
+            return fields(d["struct"])
+        if "enum" in d:
+            out = "VNil"
+            for name, p in reversed(d["enum"]):
+                if p == "unit":
+                    out = "(VUnit %s\n    %s)" % (coq_str(name), out)
+                else:
+                    out = "(VPay %s %s\n    %s)" % (coq_str(name), ty(p), out)
+            return "(TEnum %s)" % out
+        raise ValueError("serde schema: no model for definition %r" % (d,))
+
+    # topological order
+    order, done = [], set()
+
+    def visit(n, stack=()):
+        if n in done:
+            return
+        if n in stack:
+            raise ValueError("serde schema: recursive type " + n)
+        acc = set()
+        deps(schema[n], acc)
+        for m in sorted(acc):
+            if m in schema:
+                visit(m, stack + (n,))
+        done.add(n)
+        order.append(n)
+    for n in sorted(schema):
+        visit(n)
+    lines = ["(* GENERATED by /verif/vlib/translate.py from the #[cfg_attr(feature = \"serde1\", derive(serde::Serialize,",
+             "   serde::Deserialize))] sites of /repo's current source; do not edit.  One shape per derive site; a newtype",
+             "   struct has the shape of its field (serde writes it transparently). *)",
+             "From WV Require Import Model.Base Model.Serde.",
+             "Open Scope Z_scope.",
+             "Definition str (l : list N) : list byte := l."]
+    for n in order:
+        lines.append("Definition t_%s : ty :=\n  %s." % (n, definition(schema[n])))
+    lines.append("Definition serde_types : list (list byte * ty) :=\n  [" + ";\n   ".join("(%s, t_%s)" % (coq_str(n), n) for n in order) + "].")
+    return "\n".join(lines) + "\n"
+
+
 def write_if_changed(path, text):
     old = open(path).read() if os.path.exists(path) else None
     if old != text:
@@ -347,6 +468,7 @@ def regenerate():
         schema = serde_sites()
         info["serde_sites"] = sorted(schema)
         write_if_changed(os.path.join(gen_dir, "serde_schema.json"), json.dumps(schema, indent=1, sort_keys=True) + "\n")
+        info["serde_schema_changed"] = write_if_changed(os.path.join(gen_dir, "SerdeSchema.v"), render_serde_schema_v(schema))
     except (core.InfraError, ValueError, IndexError) as e:
         info["serde_translator_degraded"] = str(e)
     return info
